@@ -272,4 +272,48 @@ vf_dup(const void *src, size_t len)
 	return p;
 }
 
+
+/* ------------------------------------------------------------------ */
+/* current-case reporting on sanitizer aborts: harnesses point vf_cur_case
+   at a description of what is being executed; it is printed to stderr when
+   ASan reports or the process aborts (UBSan, hook failures). */
+
+#include <signal.h>
+#include <unistd.h>
+
+static const char *vf_cur_case = NULL;
+
+static void
+vf_print_case_(void)
+{
+	if (vf_cur_case != NULL) {
+		const char *p = "VF_CASE ";
+		if (write(2, p, strlen(p)) < 0) return;
+		if (write(2, vf_cur_case, strlen(vf_cur_case)) < 0) return;
+		if (write(2, "\n", 1) < 0) return;
+	}
+}
+
+void __asan_on_error(void);
+void
+__asan_on_error(void)
+{
+	fflush(stdout);
+	vf_print_case_();
+}
+
+static void
+vf_abort_handler_(int sig)
+{
+	(void)sig;
+	vf_print_case_();
+	signal(SIGABRT, SIG_DFL);
+}
+
+__attribute__((constructor)) static void
+vf_install_handlers_(void)
+{
+	signal(SIGABRT, vf_abort_handler_);
+}
+
 #endif
